@@ -39,7 +39,8 @@ def targets(tier='quick'):
     RG = grad.grad_registry()
     for ne in (0, 1, 2):
         T.append(Target('grad/bookkeeping[envs=%d]' % ne, 'gradient.compute_gradient_and_dynamics', grad.grad_scenario(ne), post_grad, RG, PROP,
-                        max_paths=6000, replay=lambda ob: {'func': 'gradient_vs_finite_difference', 'inputs': {'obligation': ob['name']}}))
+                        max_paths=6000, replay=lambda ob: {'func': 'gradient_with_caps' if 'caps' in ob['name'] else 'gradient_vs_finite_difference',
+                                                           'inputs': {'obligation': ob['name']}}))
     return T
 
 
